@@ -56,7 +56,7 @@ func (this *MultisignInfo) Deserialization(source *common.ZeroCopySource) error 
 	if eof {
 		return fmt.Errorf("MultisignInfo deserialize length of sig map error")
 	}
-	sigMap := make(map[string]bool, l)
+	sigMap := make(map[string]bool)
 	for i := uint64(0); i < l; i++ {
 		sig, eof := source.NextString()
 		if eof {
